@@ -529,6 +529,10 @@ func runCase(ctx context.Context, out *vc.Out, r *vc.Rng, caseID int, dir string
 					if k == "_docID" || k == "_docIDNew" {
 						continue
 					}
+					if v == nil && k != "d" && k != "ds" {
+						// a null and a missing key are the same content, except for a field with a default value
+						continue
+					}
 					c[k] = v
 				}
 				b, _ := json.Marshal(c)
